@@ -118,7 +118,10 @@ CLAIMS = {
    text="Lean 4 theorems over the parallel engine model (all rule-variant tasks of an iteration evaluated against frozen total/delta, their head updates applied "
         "in an arbitrary permutation = any interleaving of the workers' atomic steps, with or without inter-rule parallelism): for every relational program, "
         "interpretation, input, valid SCC order, fuel and EVERY schedule the result is exactly the least model, rows are sets (runPar_eq_leastModel), hence equal "
-        "to the serial engine's result (par_eq_serial) and independent of the schedule (par_schedule_independent). Tied by ascent_par! twins of generated "
+        "to the serial engine's result (par_eq_serial) and independent of the schedule (par_schedule_independent). Props/C02ND.lean generalises the schedule to a "
+        "RELATION: a pass may apply the head update to any list of head rows that is set-equal to the rows of all rule-variant instances (any order, any "
+        "multiplicity - hash order, index choice, swapped simple joins, duplicate hits, worker interleavings); every such execution computes the least model "
+        "(nd_eq_leastModel, nd_runs_agree) and every schedule of the parallel engine is one (par_is_nd). Tied by ascent_par! twins of generated "
         "relational / lattice / aggregation programs, with and without #![inter_rule_parallelism], in pools of 1..16 threads under seeded perturbation of every "
         "concurrent index insert (hook), vs the serial model and the naive oracle. PARTIAL: lattices and aggregation in parallel mode are covered by the tie "
         "only (finding F5, aggregates over a lattice in parallel mode, was repaired by fix 058163a and its witness must pass); deadlock-freedom, DashMap/boxcar/RwLock/Mutex atomicity, rayon completion and memory ordering are assumptions, exercised not proved.",
